@@ -35,7 +35,9 @@ RULE = ("a state = one (object, copy route chain) configuration: object in {ever
         "namespaces of 0-3 taxa x layouts x decorations} x route chain in {deepcopy, clone(0|1|2), copy "
         "constructor, copy constructor with new namespace, copy.copy, taxon_namespace_scoped_copy, extract_tree}^(1|2); "
         "plus every sequence of 2 and 3 copy operations (any route, each applied to the original, to the result of an "
-        "earlier step or to the namespace of either) on one small object per kind, the last copy judged; "
+        "earlier step or to the namespace of either) on one small object per kind, the last copy judged; plus every sequence of 2-3 copies "
+        "(taxon_namespace_scoped_copy(memo=M) | copy.deepcopy(x, M)) of three objects of one namespace sharing one caller-supplied "
+        "memo, the namespace optionally growing between copies; "
         "a transition = one mutation of the alphabet (every structural edit at every node, every length / label / "
         "comment / ad-hoc attribute, every annotation add / drop / change / rename / nested add / in-place value "
         "edit on every annotable, re-encoding, every sequence cell / row / subset / type edit, every namespace "
@@ -58,6 +60,11 @@ ASSUMPTIONS = [
     "an attribute that is not in the harness's table of known fields and whose name starts with an underscore is hidden "
     "implementation state (cache, memo): it is not compared between source and copy nor required to stay unchanged, only "
     "counted (unknown_private_fields_seen); the reachability walk still follows it; unknown public attributes are compared",
+    "shared caller-supplied memo: a scoped copy is decided when every earlier use of the memo was a scoped copy of ANOTHER "
+    "object (the scoped-copy docstring promises shared namespace/taxa without reservation); a deep copy only when every "
+    "earlier use was a deep copy of another object and the namespace did not grow (copy.deepcopy's memo semantics make the "
+    "result depend on the memo by design); mixing deep and scoped copies in one memo and copying one object twice with one "
+    "memo are undocumented: executed and counted, never decided",
     "mutations shared by design are not applied: taxon / namespace edits for namespace-sharing routes, member-tree / "
     "sequence edits for shallow routes",
 ]
@@ -98,6 +105,9 @@ def bounds(tier):
                               "sources_per_step": "original | result of an earlier step | namespace of either (distinct objects only)",
                               "objects": [describe(d) for d in SEQ_OBJECTS[tier]], "judged": "last copy of each sequence, all E1 oracles "
                               "+ earlier objects unchanged" + ("" if q else " + probe mutations on either side")},
+        "E1_shared_memo_sequences": {"copies": [2, 3], "objects": "A, B, C (C of A's kind) in one namespace; (A,B) kinds: all 9 pairs of tree/treelist/matrix",
+                                     "operations": ["taxon_namespace_scoped_copy(memo=M)", "copy.deepcopy(x, M)"],
+                                     "edit_between_copies": "optionally: new taxon in the namespace + a leaf/row carrying it on every object"},
         "E2_mutations": {"depth": 1, "sides": ["source", "copy"],
                          "trees": ("all shapes n<=3 x {rooted, unrooted} x {all decorations, none} + undefined rooting x {ann+bip}; "
                                    "all shapes n=4 rooted, all decorations") if q else
@@ -614,12 +624,12 @@ def routes_of(kind):
 def family(kind, route):
     """documented depth of a route for a kind"""
     if kind == "ns":
-        if route in ("deepcopy", "clone2"):
+        if route in ("deepcopy", "clone2", "deepcopy_memo"):
             return "deep"
         if route == "clone1":
             return "identity"
         return "shallow"
-    if route in ("deepcopy", "clone2"):
+    if route in ("deepcopy", "clone2", "deepcopy_memo"):
         return "deep"
     if route == "ctor_newns":
         return "newns"
@@ -1346,7 +1356,7 @@ def make_pair(desc, chain):
     return obj, cp, None
 
 
-def judge_copy(kind, src, route, ctx, case, sig, title, nontrivial, flags=(), interesting=False, bystanders=()):
+def judge_copy(kind, src, route, ctx, case, sig, title, nontrivial, flags=(), interesting=False, bystanders=(), fn=None):
     """Applies one copy route to the live object `src` and judges the copy with all E1 oracles
     (no exception, source unchanged, oracle 1 equality in the route's view, documented-shared
     parts identical, oracle 2 reachability).  `sig(category, detail, raises)` builds the
@@ -1357,7 +1367,12 @@ def judge_copy(kind, src, route, ctx, case, sig, title, nontrivial, flags=(), in
     s0, I0 = snapshot(kind, src)
     before = [(nm, k, o, snapshot(k, o)[0]) for nm, k, o in bystanders]
     try:
-        cp = apply_route(src, route)
+        if fn is not None:
+            with warnings.catch_warnings():
+                warnings.simplefilter("ignore")
+                cp = fn(src)
+        else:
+            cp = apply_route(src, route)
     except Exception as e:
         ctx.violation(sig("copy-raises", type(e).__name__, True), "%s raised %r" % (title, e), case)
         return None
@@ -1741,6 +1756,135 @@ def check_sequence(desc, steps, ctx, tier="quick"):
                                   title, m, side, "/".join(d[0]), brief(d[1]), brief(d[2])), case)
 
 
+# ---------------------------------------------------------------------------
+# copies that share ONE caller-supplied memo: x.taxon_namespace_scoped_copy(memo=M) and
+# copy.deepcopy(x, M) on three objects A, B, C (C of A's kind) of one namespace, 2-3 copies, optionally with the
+# namespace growing (a new taxon carried by a new leaf / row of A and B) between two copies.
+#
+# What is decided.  taxon_namespace_scoped_copy's docstring promises without reservation that
+# "all member objects are full independent instances, except for TaxonNamespace and Taxon
+# objects: these are preserved as references"; nothing is said about memo, so a sequence of
+# scoped copies only is judged by the namespace-scoped oracles whatever the memo has seen.
+# copy.deepcopy(x, memo) has Python's documented memo semantics (what the memo already maps is
+# not copied again), so its result legitimately depends on the memo's history: a deep copy is
+# judged only when every earlier use of M was a deep copy and the namespace did not grow;
+# every other combination (deep and scoped mixed in one memo, an object copied twice with the
+# same memo - the memo hands back the earlier copy) is executed and counted, never decided.
+
+MEMO_KINDS = ("tree", "treelist", "matrix")
+
+
+def memo_build(kind, ns, tag):
+    if kind == "tree":
+        t = build.build_tree((True, ref.mk(U.shapes(2)[0], lens=1.0)), ns)
+        t.label = tag
+        return t
+    if kind == "treelist":
+        tl = dendropy.TreeList(taxon_namespace=ns, label=tag)
+        tl.append(build.build_tree((True, ref.mk(U.shapes(3)[0], lens=1.0)), ns))
+        return tl
+    m = dendropy.DnaCharacterMatrix(taxon_namespace=ns, label=tag)
+    for t, row in zip(ns._taxa[:2], ("ACGT", "A-TN")):
+        m.new_sequence(t, m.coerce_values(row))
+    return m
+
+
+def memo_grow(kind, obj, taxon):
+    if kind == "tree":
+        obj.seed_node.new_child(taxon=taxon, edge_length=2.0)
+    elif kind == "treelist":
+        obj._trees[0].seed_node.new_child(taxon=taxon, edge_length=2.0)
+    else:
+        obj.new_sequence(taxon, obj.coerce_values("GG"))
+
+
+def memo_event_name(ev):
+    if ev[0] == "grow":
+        return "grow"
+    return "%s(%s,M)" % ("scoped" if ev[2] == "scoped" else "deepcopy", ev[1])
+
+
+def memo_sequences():
+    """event lists: 2-3 copies (object A|B x scoped|deep), optionally 'grow' before any later copy"""
+    out = []
+    copies = [["copy", w, r] for w in ("A", "B", "C") for r in ("scoped", "deep")]
+    for k in (2, 3):
+        for cs in itertools.product(copies, repeat=k):
+            for gaps in itertools.product((False, True), repeat=k - 1):
+                ev = [list(cs[0])]
+                for g, c in zip(gaps, cs[1:]):
+                    if g:
+                        ev.append(["grow"])
+                    ev.append(list(c))
+                out.append(ev)
+    return out
+
+
+def check_memo_sequence(ka, kb, events, ctx):
+    case = {"kind": "memoseq", "A": ka, "B": kb, "events": [list(e) for e in events]}
+    ctx.case(("memoseq", ka, kb, tuple(tuple(e) for e in events)), nontrivial=True)
+    ctx.count("states")
+    ctx.count("states_shared_memo_sequence")
+    ns, _bit = build.make_namespace(U.LABELS[:3], "exact")
+    objs = {"A": (ka, memo_build(ka, ns, "A")), "B": (kb, memo_build(kb, ns, "B")), "C": (ka, memo_build(ka, ns, "C"))}
+    M = {}
+    fns = {"scoped": lambda x: x.taxon_namespace_scoped_copy(memo=M), "deep": lambda x: copy.deepcopy(x, M)}
+    earlier = []      # (who, route, result)
+    grown = 0
+    for ev in events[:-1]:
+        if ev[0] == "grow":
+            grown += 1
+            t = ns.new_taxon("grown%d" % grown)
+            for k, o in objs.values():
+                memo_grow(k, o, t)
+            continue
+        k, o = objs[ev[1]]
+        try:
+            with warnings.catch_warnings():
+                warnings.simplefilter("ignore")
+                earlier.append((ev[1], ev[2], fns[ev[2]](o)))
+        except Exception:
+            ctx.count("shared_memo_prefix_not_executable")
+            return
+    _c, who, route = events[-1]
+    kind, src = objs[who]
+    routes_before = set(r for _w, r, _o in earlier)
+    again = any(w == who for w, _r, _o in earlier)
+    if again:
+        deciding = False
+        why = "object_copied_before_with_this_memo"
+    elif route == "scoped":
+        deciding = routes_before <= {"scoped"}
+        why = "scoped_copy_after_deep_copy_in_one_memo"
+    else:
+        deciding = routes_before <= {"deep"} and not grown
+        why = "deep_copy_with_used_memo_after_scoped_copy_or_growth"
+    chain = "->".join(memo_event_name(e).split("(")[0] if e[0] != "grow" else "grow" for e in events)
+    title = "[M={}; %s] with A=%s, B=%s, C=%s in one namespace" % ("; ".join(memo_event_name(e) for e in events), ka, kb, ka)
+
+    def sig(cat, detail=None, raises=False):
+        return "copy-sequence|memo-shared|%s|%s|%s" % (chain, kind, cat if detail is None else "%s:%s" % (cat, detail))
+    rname = "scoped_memo" if route == "scoped" else "deepcopy_memo"
+    if not deciding:
+        ctx.count("shared_memo_not_decided_" + why)
+        buf = _Buffer()
+        judge_copy(kind, src, rname, buf, case, sig, title, True, fn=fns[route])
+        if buf.viol:
+            ctx.count("observed_undecided_shared_memo_copy_deviates")
+        return
+    ctx.count("shared_memo_sequences_decided")
+    by = [(w, k, o) for w, (k, o) in objs.items() if w != who]
+    by += [("copy %d" % (i + 1), objs[w][0], o) for i, (w, _r, o) in enumerate(earlier)]
+    judge_copy(kind, src, rname, ctx, case, sig, title, True, (), grown > 0, by, fn=fns[route])
+
+
+def run_memo_chunk(chunk, ctx):
+    for ev in memo_sequences():
+        check_memo_sequence(chunk["A"], chunk["B"], ev, ctx)
+    ctx.sample({"shared_memo_sequences_for": "A=%s, B=%s, C=%s" % (chunk["A"], chunk["B"], chunk["A"]),
+                "example": "; ".join(memo_event_name(e) for e in memo_sequences()[-1])}, 1)
+
+
 def sequence_chunks(tier):
     out = []
     for d in SEQ_OBJECTS[tier]:
@@ -2016,6 +2160,9 @@ def chunks(tier):
     for d in mutation_other_objects(tier):
         out.append({"what": "mut", "obj": d, "routes": routes_of(d["kind"]), "tier": tier})
     out.extend(sequence_chunks(tier))
+    for ka in MEMO_KINDS:
+        for kb in MEMO_KINDS:
+            out.append({"what": "memoseq", "A": ka, "B": kb, "tier": tier})
     return out
 
 
@@ -2076,6 +2223,8 @@ def run_chunk(chunk, ctx):
         ctx.count("objects_mutated")
         ctx.sample({"mutated_object": describe(d), "routes": chunk["routes"],
                     "mutations_enabled_on_source": len(mutations(d["kind"], BUILDERS[d["kind"]](d)))}, 1)
+    elif what == "memoseq":
+        run_memo_chunk(chunk, ctx)
     elif what == "seq":
         run_sequences(chunk, ctx)
         ctx.sample({"copy_sequences_starting_with": seq_name([chunk["first"]]), "X": describe(chunk["obj"])}, 1)
@@ -2106,6 +2255,8 @@ def replay(case, ctx):
     case = _norm(case)
     if case.get("kind") == "state":
         check_state(case["obj"], case["chain"], ctx)
+    elif case.get("kind") == "memoseq":
+        check_memo_sequence(case["A"], case["B"], case["events"], ctx)
     elif case.get("kind") == "sequence":
         check_sequence(case["obj"], case["steps"], ctx, case.get("tier", "quick"))
     elif case.get("kind") == "mutation":
